@@ -163,3 +163,43 @@ func VerifPlans(arg string) {
 func init() {
 	vRegisterP("VerifPlans", VerifPlans)
 }
+
+// VerifPiecesIEEE (C05, IEEE-754 semantics): for every request k/sb cores with
+// lo <= k <= hi on a node of c free whole-share cores, the first plan carries
+// exactly k pieces, as whole shares plus at most one fragment.
+// arg: c=<cores>,sb=<share base>,lo=,hi=
+func VerifPiecesIEEE(arg string) {
+	n := vParam(arg, "c", 1)
+	sb := vParam(arg, "sb", 100)
+	lo := vParam(arg, "lo", 1)
+	hi := vParam(arg, "hi", sb)
+	capacity := &types.NodeResource{CPUMap: types.CPUMap{}, NUMAMemory: types.NUMAMemory{}, NUMA: types.NUMA{}}
+	usage := &types.NodeResource{CPUMap: types.CPUMap{}, NUMAMemory: types.NUMAMemory{}, NUMA: types.NUMA{}}
+	for i := 0; i < n; i++ {
+		capacity.CPUMap[vCores[i]] = sb
+		usage.CPUMap[vCores[i]] = 0
+	}
+	info := &types.NodeResourceInfo{Capacity: capacity, Usage: usage}
+	k := vInt("k", lo, hi)
+	// the request as the API receives it: the double nearest to the decimal k/sb
+	req := &types.WorkloadResourceRequest{CPUBind: true, CPURequest: float64(k) / float64(sb)}
+	plans := GetCPUPlans(info, nil, sb, -1, req)
+	vCover("planned", len(plans) > 0)
+	vAssert("C05/ieee-request-is-plannable", len(plans) > 0)
+	if len(plans) == 0 {
+		return
+	}
+	tot, fragments := 0, 0
+	for _, pieces := range plans[0].CPUMap {
+		tot += pieces
+		vAssert("C05/ieee-whole-share-or-fragment", vAnd(pieces > 0, pieces <= sb))
+		if vConcrete(vIte(pieces == sb, 1, 0)) == 0 {
+			fragments++
+		}
+	}
+	vObserve("first_total", tot)
+	vAssert("C05/ieee-plan-total-is-request", tot == k)
+	vAssert("C05/ieee-at-most-one-fragment", fragments <= 1)
+}
+
+func init() { vRegisterP("VerifPiecesIEEE", VerifPiecesIEEE) }
